@@ -1,6 +1,6 @@
 """Per-property configuration of /verif/check."""
 
-COMMON_NOTE = "Trusted: Lean kernel, correspondence harness and its canonicalisation (errors reduced to classes). Modelled by hand: unmarshaler.go, warcfieldsparser.go, headerfielddef.go, record.go (parseBlock, ValidateDigest), block kinds as far as bytes and digests go, recordbuilder.go, marshaler.go, digest.go. External code as parameters: hash functions (abstract H in theorems; executable MD5/SHA-1/SHA-256/SHA-512 in the driver, validated against crypto/*), time.Parse, net.ParseIP, whatwg-url, net/http head parsing (verdict tables supplied with each case), bufio.Reader by contract. gzip members are not yet inside this model (file-level properties)."
+COMMON_NOTE = "Trusted: Lean kernel, correspondence harness and its canonicalisation (errors reduced to classes). Modelled by hand: unmarshaler.go, warcfieldsparser.go, headerfielddef.go, record.go (parseBlock, ValidateDigest), block kinds as far as bytes and digests go, recordbuilder.go, marshaler.go, digest.go. External code as parameters: hash functions (abstract H in theorems; executable MD5/SHA-1/SHA-256/SHA-512 in the driver, validated against crypto/*), time.Parse, net.ParseIP, whatwg-url, net/http head parsing (verdict tables supplied with each case), bufio.Reader by contract, the gzip codec (per member: decompressed bytes, whether the member ends in an error, compressed length - measured on the implementation and supplied with each case)."
 
 ALLOWED_AXIOMS = {"propext", "Classical.choice", "Quot.sound"}
 
@@ -91,13 +91,15 @@ PROPS = {
     ),
     "C03": dict(
         title="Length and digest verification is sound and complete",
-        lean_modules=["Gowarc.Props.C03"],
+        lean_modules=["Gowarc.Props.C03", "Gowarc.Props.C03enc"],
+        audit_namespaces=["Gowarc.Props.C03"],
         n_quick=3000, n_thorough=40000,
-        required_theorems=["hex_roundtrip", "validate_iff", "checkDigest_complete", "checkDigest_sound_warn", "checkDigest_sound_fail", "checkDigest_adds"],
+        required_theorems=["hex_roundtrip", "validate_iff", "checkDigest_complete", "checkDigest_sound_warn", "checkDigest_sound_fail", "checkDigest_adds",
+                           "C03_b32_roundtrip", "C03_b64_roundtrip", "C03_encode_decode", "C03_format_valid", "C03_wrong_digest_rejected"],
         model_assumptions=["distinct inputs generated by the harness have distinct digests (cryptographic hash)", "see level_note"],
         design_ref="DESIGN.md section 5, C03",
         level_text="Theorems for an arbitrary hash function: validate accepts exactly the values that decode to the hash; the per-field check never reports a correct value, always reports a wrong one (finding under warn, error under fail) "
-                   "and repairs to the true value; base16 round trip for all byte strings. Correspondence: full algorithm x encoding x case x hyphen grid, every one-character corruption, and records with generator-known truth about declared length/digests on parser and builder path",
+                   "and repairs to the true value; base16, base32 and base64 decoding inverts encoding for all byte strings (bit-level proofs over the padded group forms), so the formatted digest is accepted and the encoding of any other hash rejected in every encoding. Correspondence: full algorithm x encoding x case x hyphen grid, every one-character corruption, and records with generator-known truth about declared length/digests on parser and builder path",
         level_note=COMMON_NOTE,
     ),
     "C05": dict(
@@ -128,25 +130,31 @@ PROPS = {
     ),
     "C08": dict(
         title="Error-policy coherence: ignore, warn and fail tell one story",
-        lean_modules=["Gowarc.Props.C08"],
+        lean_modules=["Gowarc.Props.C08", "Gowarc.Props.C08mono"],
+        audit_namespaces=["Gowarc.Props.C08"],
         n_quick=1500, n_thorough=20000,
         required_theorems=["C08_ignore_unmarshal", "C08_ignore_build", "C08_fail_clean_unmarshal", "C08_fail_clean_build",
-                           "C08_fail_iff_warn_unmarshal", "C08_fail_iff_warn_build", "C08_sites", "C08_switch_shapes", "C08_parser_sim"],
-        model_assumptions=["axis-by-axis monotonicity with the other axes at arbitrary levels is not proved; it is compared exhaustively over all 81 combinations on every generated input", "see level_note"],
+                           "C08_fail_iff_warn_unmarshal", "C08_fail_iff_warn_build", "C08_sites", "C08_switch_shapes", "C08_parser_sim",
+                           "C08_monotone_unmarshal", "C08_monotone_build", "C08_axis_syn_unmarshal", "C08_axis_spec_unmarshal",
+                           "C08_axis_unk_unmarshal", "C08_axis_blk_unmarshal", "C08_axis_syn_build", "C08_axis_spec_build",
+                           "C08_axis_unk_build", "C08_axis_blk_build", "C08_parser_monotone"],
+        model_assumptions=["see level_note"],
         design_ref="DESIGN.md section 5, C08",
         level_text="Kernel-checked for every input, reader fault, option setting and codec verdict: no finding unless some axis is at warn (so none under ignore, none under fail); fail returns an error iff warn returns an error or records a finding "
-                   "(lock-step simulation of the whole Unmarshal and Build models, incl. the header parser and warc-fields blocks); the regenerated table of all policy sites of the Go code with the shape of every switch. "
+                   "(lock-step simulation of the whole Unmarshal and Build models, incl. the header parser and warc-fields blocks); monotone rejection in the pointwise order of the four axes (what a setting accepts, every setting that is "
+                   "at most as strict on each axis accepts), with the four single-axis statements as corollaries, for Unmarshal and Build; the regenerated table of all policy sites of the Go code with the shape of every switch. "
                    "Correspondence: each input under the three uniform levels and all 81 combinations, the four relations evaluated on the implementation",
         level_note=COMMON_NOTE,
     ),
     "C07": dict(
         title="Validation observes, it does not destroy what was archived",
-        lean_modules=["Gowarc.Props.C07"],
+        lean_modules=["Gowarc.Props.C07", "Gowarc.Props.C07parser"],
+        audit_namespaces=["Gowarc.Props.C07"],
         n_quick=1500, n_thorough=20000,
-        required_theorems=["C07_validate_keeps_header", "C07_observe", "C07_policy_independent", "C07_block_complete"],
-        model_assumptions=["policy-independence of the FIELDS returned by the header parser is compared on generated inputs, not proved", "see level_note"],
+        required_theorems=["C07_validate_keeps_header", "C07_observe", "C07_policy_independent", "C07_block_complete", "C07_parser_policy_independent"],
+        model_assumptions=["see level_note"],
         design_ref="DESIGN.md section 5, C07",
-        level_text="Kernel-checked: header validation never alters a field under any policy; with the repair options off a record returned under ANY policy setting carries exactly the parsed fields and exactly the block framed by Content-Length "
+        level_text="Kernel-checked: header validation never alters a field under any policy; the header parser returns the same fields and stops at the same byte under any two syntax policies that accept; with the repair options off a record returned under ANY policy setting carries exactly the parsed fields and exactly the block framed by Content-Length "
                    "(complete, never empty or shortened); protocol header ++ payload = content. Correspondence: every input parsed under all 81 policy combinations with repairs off, headers and drained blocks compared across policies on the implementation",
         level_note=COMMON_NOTE,
     ),
